@@ -323,6 +323,16 @@ pub mod g {
         r: Vec<RCyc1>,
         c: C,
     }
+    // the same type used in two presentations inside one container
+    root!(struct RInlineAndName { #[ts(inline)] a: B2, b: B2 });
+    root!(struct RNameAndInline { b: B2, #[ts(inline)] a: B2 });
+    root!(struct RFlattenAndName { #[ts(flatten)] a: B2, b: B2 });
+    root!(struct RGenInlineAndName { #[ts(inline)] a: G<B>, b: G<B> });
+    root!(struct RNameAndGenInline { b: G<B>, #[ts(inline)] a: G<B> });
+    root!(struct RTupleInlineAndName(#[ts(inline)] B2, B2););
+    root!(enum EInlineAndName { I(#[ts(inline)] B2), N(B2), S { #[ts(inline)] a: B2, b: B2 } });
+    root!(struct RInlineSet { #[ts(inline)] s: std::collections::BTreeSet<B2>, #[ts(inline)] m: std::collections::BTreeMap<String, B2> });
+    root!(struct RSetOfGen { s: std::collections::BTreeSet<G<B>>, r: std::ops::RangeInclusive<C> });
     root!(struct RSkip { #[ts(skip)] b: B, c: C });
     root!(struct ROptional { #[ts(optional)] b: Option<B> });
 
@@ -382,6 +392,15 @@ pub mod g {
             ti!(RPairGen, "generic-arg", "two-instantiations"),
             ti!(RSelf, "self-reference"),
             ti!(RCyc1, "cycle"),
+            ti!(RInlineAndName, "inline", "field", "same-type-twice"),
+            ti!(RNameAndInline, "inline", "field", "same-type-twice"),
+            ti!(RFlattenAndName, "flatten", "field", "same-type-twice"),
+            ti!(RGenInlineAndName, "generic-arg", "inline", "same-type-twice"),
+            ti!(RNameAndGenInline, "generic-arg", "inline", "same-type-twice"),
+            ti!(RTupleInlineAndName, "tuple", "inline", "same-type-twice"),
+            ti!(EInlineAndName, "enum", "inline-payload", "same-type-twice"),
+            ti!(RInlineSet, "inline", "container"),
+            ti!(RSetOfGen, "container", "generic-arg"),
             ti!(RSkip, "skip"),
             ti!(ROptional, "optional"),
             ti!(EExt, "enum", "external"),
